@@ -250,6 +250,17 @@ def run_counter(job):
     return hutil.run_symx(job, setup, body)
 
 
+def pc_problem(cr, cu, C13, stream, cuts, B):
+    """two columns per batch: the explored one and, after it, a narrow one (x / y); each column's counter answers for its own stream"""
+    narrow = ['x' if i % 2 == 0 else 'y' for i in range(len(stream))]
+    got = C13.run_batches(cr, cu, [[v, nv] for v, nv in zip(stream, narrow)], ['fa', 'fz'], cuts, 1, ',{}', hist_bound=B)
+    for col, vals in (('fa', stream), ('fz', narrow)):
+        dc, seen = got['hist'][col], Counter(vals)
+        if any(dc[x] > seen[x] for x in dc) or len(dc) > B or (len(seen) < B and dict(dc) != dict(seen)):
+            return f'column {col}: tracked {dict(dc)} vs exact {dict(seen)} with bound {B}'
+    return None
+
+
 def run_pipeline_counter(job):
     """the bounded counter as the pipeline feeds it (compute_cardinalities over a history of mini-batches): same three clauses"""
     from harness import C13
@@ -274,12 +285,8 @@ def run_pipeline_counter(job):
         rows = [[v] for v in stream]
         w = {'cond': 'pipeline-counter', 'bound': B, 'stream': stream, 'cuts': cuts}
         try:
-            got = C13.run_batches(cr, cu, rows, ['fa'], cuts, 1, ',{}', hist_bound=B)
-            dc = got['hist']['fa']
-            seen = Counter(stream)
-            distinct_before_full = len(seen) < B
-            bad = any(dc[x] > seen[x] for x in dc) or len(dc) > B or (distinct_before_full and dict(dc) != dict(seen))
-            probs = [f'tracked {dict(dc)} vs exact {dict(seen)} with bound {B}'] if bad else []
+            p = pc_problem(cr, cu, C13, stream, cuts, B)
+            probs = [p] if p else []
         except Exception as e:
             probs = [f'{type(e).__name__}: {e}']
         if probs or out.twin:
@@ -302,10 +309,9 @@ def replay(w):
         from harness import C13
         from harness import pipeline as PL
         cr, cu, tr, ie = PL.real_modules()
-        got = C13.run_batches(cr, cu, [[v] for v in w['stream']], ['fa'], w['cuts'], 1, ',{}', hist_bound=w['bound'])
-        dc, seen = got['hist']['fa'], Counter(w['stream'])
-        if any(dc[x] > seen[x] for x in dc) or len(dc) > w['bound'] or (len(seen) < w['bound'] and dict(dc) != dict(seen)):
-            return {'reproduced': True, 'signature': 'C15:bounded-counter-in-pipeline', 'what': f'compute_cardinalities over batches {w["cuts"]} of {w["stream"]} with bound {w["bound"]}: tracked {dict(dc)} vs exact {dict(seen)}'}
+        p = pc_problem(cr, cu, C13, w['stream'], w['cuts'], w['bound'])
+        if p:
+            return {'reproduced': True, 'signature': 'C15:bounded-counter-in-pipeline', 'what': f'compute_cardinalities over batches {w["cuts"]} of {w["stream"]} (plus a narrow second column) with bound {w["bound"]}: {p}'}
         return {'reproduced': False, 'what': 'within contract'}
     if w['cond'] == 'counter':
         import importlib
